@@ -71,15 +71,25 @@ def batch_for(rng, spec):
             if rng.random() < 0.25:
                 attrs.append(['null', 'true'])
                 init = None if rng.random() < 0.5 else init
-            muts.append({'t': 'AddField', 'model': 'Alpha', 'field': n, 'ftype': t,
-                         'initial': None if init is None else sigs.cv(init), 'attrs': attrs})
+            mj = {'t': 'AddField', 'model': 'Alpha', 'field': n, 'ftype': t,
+                  'initial': None if init is None else sigs.cv(init), 'attrs': attrs}
+            if init is not None and rng.random() < 0.2:
+                # a callable initial that returns SQL text
+                mj['initial_sql'] = rng.choice(['40 + 2', '0'] if t == 'IntegerField' else ["'n/a'", "'x' || 'y'"])
+                mj['initial'] = sigs.cv(EMBED_VALUES[mj['initial_sql']] if t != 'IntegerField'
+                                        else int(EMBED_VALUES[mj['initial_sql']]))
+            muts.append(mj)
         elif k == 'notnull':
             c = [f for f in nullable if f['name'] not in used]
             if c:
                 f = rng.choice(c)
                 used.add(f['name'])
-                muts.append({'t': 'ChangeField', 'model': 'Alpha', 'field': f['name'], 'ftype': None,
-                             'initial': sigs.cv(sigs.gen_initial(rng, f['type'])), 'attrs': [['null', 'false']]})
+                mj = {'t': 'ChangeField', 'model': 'Alpha', 'field': f['name'], 'ftype': None,
+                      'initial': sigs.cv(sigs.gen_initial(rng, f['type'])), 'attrs': [['null', 'false']]}
+                if rng.random() < 0.15 and f['type'] in ('IntegerField', 'CharField', 'TextField'):
+                    mj['initial_sql'] = rng.choice(['40 + 2', '1 + 1'] if f['type'] == 'IntegerField'
+                                                   else ["'n/a'", "'x' || 'y'"])
+                muts.append(mj)
         elif k == 'maxlen':
             c = [f for f in m['fields'] if f['type'] == 'CharField' and f['name'] not in used]
             if c:
@@ -96,6 +106,21 @@ def batch_for(rng, spec):
     return muts
 
 
+# SQL text a callable initial may return -> the value that text evaluates to (the model copies values, it
+# does not evaluate SQL)
+EMBED_VALUES = {"'n/a'": 'n/a', '40 + 2': '42', '1 + 1': '2', "'x' || 'y'": 'xy', '0': '0'}
+
+
+def init_item(init):
+    """(value text, embedded?) of an initial value as the rebuild will treat it"""
+    if callable(init):
+        text = init()
+        if isinstance(text, str):
+            return EMBED_VALUES.get(text, text), True
+        return sval(text), False
+    return sval(init), False
+
+
 def abstract_ops(am):
     """real ModelMutator op list -> ops with the rebuild items the model needs"""
     from django_evolution.mutators.model_mutator import ModelMutator
@@ -107,10 +132,8 @@ def abstract_ops(am):
             t = op['type']
             detail, items = [], []
             if t == 'add_column':
-                init = op['initial']
-                if callable(init):
-                    init = init()
-                items.append({'kind': 'add', 'col': op['field'].column, 'init': sval(init)})
+                v, emb = init_item(op['initial'])
+                items.append({'kind': 'add', 'col': op['field'].column, 'init': v, 'embed': emb})
             elif t == 'delete_column':
                 items.append({'kind': 'delete', 'col': op['field'].column})
             elif t == 'change_column':
@@ -118,7 +141,8 @@ def abstract_ops(am):
                 for a in detail:
                     if a == 'null':
                         init = op['mutation'].initial if not op['new_attrs']['null']['new_value'] else None
-                        items.append({'kind': 'modify', 'col': op['field'].column, 'init': sval(init)})
+                        v, emb = init_item(init)
+                        items.append({'kind': 'modify', 'col': op['field'].column, 'init': v, 'embed': emb})
                     elif a in ('max_length', 'unique', 'max_digits', 'decimal_places'):
                         items.append({'kind': 'modify', 'col': op['field'].column, 'init': None})
             elif t == 'change_meta':
@@ -433,6 +457,7 @@ def run(ctx):
             ctx.count('one_table_exec_failed:' + type(e).__name__)
             continue
         reqs.append({'op': 'rows_after', 'aligned': bool(aligned), 'cols': cols, 'rows': before, 'ops': ops})
+        ctx.count('one_table:embedded_initials=%d' % min(2, sum(1 for m in muts if m.get('initial_sql'))))
         pend.append((spec, muts, seed, cols2, after, before))
     outs = ctx.driver.ask(reqs) if ctx.driver else [None] * len(reqs)
     for (spec, muts, seed, cols2, after, before), out in zip(pend, outs):
